@@ -36,8 +36,15 @@ def _pair(args):
         return [], {"cfg": cfg, "skipped": "grid not exactly representable"}, None
     out = []
     try:
+        # a third run on a generic (non-dyadic) shift of the same grid, only when the rounding of time + shift perturbs
+        # each increment by at most 1e-10 relative
+        g_shift = float(cfg["shift_by"]) * 1.0000001 + 0.1234567
+        eps = float(np.finfo(float).eps)
+        generic = None
+        if eps * (abs(g_shift) + float(ref[-1])) / float(np.diff(ref).min()) <= 1e-10:
+            generic = ref + g_shift
         res = []
-        for grid in (ref, shifted):
+        for grid in (ref, shifted) + ((generic,) if generic is not None else ()):
             obj, fp, tab = sdrv.build_object(cfg)
             pmin = float(np.asarray(tab["pressure"])[1])
             sched = sdrv.make_schedule(cfg.get("sched", "none"), len(grid), cfg["pf"], cfg["pi"], max(pmin, 0.05 * cfg["pf"]),
@@ -62,16 +69,24 @@ def _pair(args):
             res.append((np.asarray(obj.pseudopressure, dtype=float), rf, rfd,
                         {"node_ulps": int(node_ulps), "zero_before": bool(np.all(before == 0.0)),
                          "after_ulps": int(max(quant.ulps(a, rcur[-1]) for a in after))}, float(fp.m_i) if cfg["kind"] == "single" else 1.0))
-        (ua, ra, rda, ia, mi), (ub, rb, rdb, ib, _) = res
+        (ua, ra, rda, ia, mi), (ub, rb, rdb, ib, _) = res[0], res[1]
         lo = float(min(ua.min(), ub.min()))
         window = max(mi - lo, 1e-300)
         de = float(np.max(np.abs(ua - ub))) / window
         dr = float(np.max(np.abs(ra - rb))) / max(1.0, float(np.max(np.abs(ra))))
         if rda is not None:
             dr = max(dr, float(np.max(np.abs(rda - rdb))))
-        out.append({"tid": tid, "seq": 0, "ev": "Shift", "de15": quant.e15_of(max(de, dr))})
+        dg = -1
+        if generic is not None:
+            ug, rg, rdg = res[2][0], res[2][1], res[2][2]
+            gd = float(np.max(np.abs(ua - ug))) / window
+            gr = float(np.max(np.abs(ra - rg))) / max(1.0, float(np.max(np.abs(ra))))
+            if rda is not None:
+                gr = max(gr, float(np.max(np.abs(rda - rdg))))
+            dg = quant.e15_of(max(gd, gr))
+        out.append({"tid": tid, "seq": 0, "ev": "Shift", "de15": quant.e15_of(max(de, dr)), "dg15": dg})
         out.append({"tid": tid, "seq": 1, "ev": "Interp", **ib})
-        return out, {"cfg": cfg, "field_diff_of_window": de, "rf_diff": dr, **ib}, None
+        return out, {"cfg": cfg, "field_diff_of_window": de, "rf_diff": dr, "generic_shift_diff_e15": dg, **ib}, None
     except Exception as ex:  # noqa: BLE001
         import traceback  # noqa: PLC0415
 
@@ -143,6 +158,8 @@ def run(ctx: core.Ctx) -> None:
         ctx.extra["worst_shift_difference_of_window"] = max(r["field_diff_of_window"] for r in raws)
         ctx.extra["worst_rf_shift_difference"] = max(r["rf_diff"] for r in raws)
         ctx.extra["worst_interp_node_ulps"] = max(r["node_ulps"] for r in raws)
+        ctx.extra["generic_shift_pairs"] = sum(1 for r in raws if r["generic_shift_diff_e15"] >= 0)
+        ctx.extra["worst_generic_shift_diff_e15"] = max(r["generic_shift_diff_e15"] for r in raws)
         ctx.sample({"pair": raws[0]})
 
 
